@@ -71,17 +71,18 @@ def record_case(args):
         common.cleanup(d)
 
 
-def run_cases(labelled, res, focus, opts=None, procs=None):
+def run_cases(labelled, res, focus, opts=None, procs=None, extra=None):
     """labelled: list of (label, case). Returns list of (trace, verdict)."""
     opts = opts or {}
     jobs = [(lab, c, opts) for lab, c in labelled]
     procs = procs or min(common.NCPU, len(jobs))
     with ProcessPoolExecutor(max_workers=procs) as ex:
         traces = list(ex.map(record_case, jobs))
-    return validate(traces, res, focus, labelled)
+    return validate(traces, res, focus, labelled, extra)
 
 
-def validate(traces, res, focus, labelled=None):
+def validate(traces, res, focus, labelled=None, extra=None):
+    extra = extra or {}
     nsh = min(common.NCPU, len(traces))
     shards = [traces[i::nsh] for i in range(nsh)]
 
@@ -107,7 +108,8 @@ def validate(traces, res, focus, labelled=None):
                           if c.strip())
             results.append((tr, v, l, clauses))
             if v != 'accept':
-                mine = clauses & (focus | COMMON)
+                mine = clauses & (focus | COMMON
+                                  | set(extra.get(tr['label'], ())))
                 bad = tr['ev'][l - 1] if 0 < l <= len(tr['ev']) else None
                 for cl in sorted(mine):
                     res.violation(
